@@ -315,7 +315,7 @@ def _xfilter(accumulator, test_range, condition, operating_range):
                 match = re.compile(''.join(sum(zip(
                     map(_, _re_condition.split(condition)),
                     tuple(map(lambda v: '.%s' % v, it)) + ('',)
-                ), ()))).match
+                ), ())), re.IGNORECASE).match
                 f = lambda v: isinstance(v, str) and bool(match(v))
                 b = np.vectorize(f, otypes=[bool])(test_range['raw'])
                 try:
@@ -339,10 +339,14 @@ def _xfilter(accumulator, test_range, condition, operating_range):
 
     from .operators import _get_type_id
     type_id, operator = _get_type_id(condition), LOGIC_OPERATORS[operator]
+    if type_id == 1:
+        condition = condition.upper()
 
     @functools.lru_cache()
     def check(value):
-        return _get_type_id(value) == type_id and operator(value, condition)
+        if _get_type_id(value) != type_id:
+            return False
+        return operator(value.upper() if type_id == 1 else value, condition)
 
     if is_number(condition):
         if 'num' not in test_range:
